@@ -453,3 +453,156 @@ Proof.
   destruct (ud_sound ls U _ _ _ _ _ _ H1 H2 (acceptable_wf _ _ A1) (acceptable_wf _ _ A2) E) as [Ek Er].
   apply Ne. apply N2Nat.inj in Ek. congruence.
 Qed.
+
+(* ------------------------------------------------------------------ signatures (idealised) *)
+Section Signatures.
+  Variable Hf : list byte -> list byte.                       (* the hash *)
+  Hypothesis Hf_inj : forall a b, Hf a = Hf b -> a = b.       (* idealisation: collision-free *)
+  Variable sigT : Type.
+  Variable sign : list byte -> list byte -> sigT.             (* key, message *)
+  Hypothesis sign_inj : forall k m k' m', sign k m = sign k' m' -> k = k' /\ m = m'.   (* symbolic signatures *)
+
+  (* verify() of a row of layout l under key k accepts signature s *)
+  Definition verifies (k : list byte) (l : layout) (r : row) (s : sigT) : Prop :=
+    wf_row l r = true /\ s = sign k (Hf (enc l r)).
+
+  Theorem binds_if_ud : forall ls, uniquely_decodable ls = true ->
+    forall i j l l' x y k k' s, nth_error ls i = Some l -> nth_error ls j = Some l' ->
+    verifies k l x s -> verifies k' l' y s -> i = j /\ x = y /\ k = k'.
+  Proof.
+    intros ls U i j l l' x y k k' s Hi Hj [Wx Sx] [Wy Sy].
+    rewrite Sx in Sy. apply sign_inj in Sy. destruct Sy as [Ek Em]. apply Hf_inj in Em.
+    destruct (ud_sound ls U _ _ _ _ _ _ Hi Hj Wx Wy Em) as [E1 E2]. auto.
+  Qed.
+
+  Theorem binds_same_shape : forall l x y k k' s,
+    verifies k l x s -> verifies k' l y s -> shape l x = shape l y -> x = y /\ k = k'.
+  Proof.
+    intros l x y k k' s [Wx Sx] [Wy Sy] S.
+    rewrite Sx in Sy. apply sign_inj in Sy. destruct Sy as [Ek Em]. apply Hf_inj in Em.
+    split; [eapply same_shape_inj; eassumption | exact Ek].
+  Qed.
+
+  (* the identity-challenge service: every submitted byte string is signed as it is *)
+  Definition oracle_answers (k : list byte) (challenges : list (list byte)) : list sigT := map (sign k) challenges.
+
+  Theorem oracle_only_digests : forall k cs k' l x s,
+    In s (oracle_answers k cs) -> verifies k' l x s -> k' = k /\ In (Hf (enc l x)) cs.
+  Proof.
+    intros k cs k' l x s Hin [_ Sx]. unfold oracle_answers in Hin. apply in_map_iff in Hin.
+    destruct Hin as [c [Hc Hin]]. rewrite Sx in Hc. apply sign_inj in Hc. destruct Hc as [Ek Ec].
+    split; [congruence | rewrite <- Ec; exact Hin].
+  Qed.
+
+  Theorem oracle_forges : forall k l x, wf_row l x = true ->
+    exists s, In s (oracle_answers k [Hf (enc l x)]) /\ verifies k l x s.
+  Proof.
+    intros k l x W. exists (sign k (Hf (enc l x))). split; [left; reflexivity | split; [exact W | reflexivity]].
+  Qed.
+
+  (* ---- the same statements about the functions the harness evaluates ---- *)
+  Lemma accept_wf : forall l r j, accept l r j = true -> wf_row l r = true.
+  Proof. intros l r j H. unfold accept in H. apply andb_true_iff in H. apply H. Qed.
+
+  Theorem run_spec_outside_known : forall c, case_ok c = true -> known_C06_gen Hf c = [] ->
+    spec_C06 c (run_C06_gen Hf c) = true.
+  Proof.
+    intros c Ok K. destruct c as [k r j | k1 r1 j1 k2 r2 j2 | k r j ch | b]; cbn [case_ok] in Ok.
+    - cbn [run_C06_gen spec_C06 known_C06_gen] in *. destruct (layout_of k) as [l|]; [|discriminate Ok].
+      rewrite rev_app_distr. cbn [rev app].
+      destruct (sign_accept l r j) eqn:Sa; cbn [zb Z.eqb negb orb andb]; [|reflexivity].
+      assert (A : accept l r j = true); [|rewrite A; reflexivity].
+      unfold sign_accept in Sa. apply andb_true_iff in Sa. destruct Sa as [Sa Sm].
+      apply andb_true_iff in Sa. destruct Sa as [Sw Sj].
+      unfold accept, wf_row. rewrite Sw, Sj. cbn [andb].
+      destruct (l_maxlen l) as [m|]; [|reflexivity].
+      fold (body_len l r).
+      destruct ((m <? body_len l r + sig_len)%N && (body_len l r <=? m)%N) eqn:Win; [discriminate K|].
+      apply N.leb_le in Sm. rewrite andb_true_r. apply N.leb_le.
+      apply andb_false_iff in Win. destruct Win as [Win|Win].
+      + apply N.ltb_ge in Win. exact Win.
+      + apply N.leb_gt in Win. destruct sign_size_excludes_signature; unfold sig_len in *; lia.
+    - cbn [run_C06_gen spec_C06 known_C06_gen] in *.
+      destruct (layout_of k1) as [l1|] eqn:L1; [|discriminate Ok].
+      destruct (layout_of k2) as [l2|] eqn:L2; [|discriminate Ok].
+      destruct (N.eqb k1 k2) eqn:Ek; cbn [negb] in K; [|discriminate K].
+      apply N.eqb_eq in Ek. subst k2. rewrite L1 in L2. inversion L2; subst l2.
+      destruct (list_eqb N.eqb (shape l1 r1) (shape l1 r2)) eqn:S; [|discriminate K].
+      apply (list_eqb_eq N.eqb N.eqb_eq) in S.
+      destruct (sign_accept l1 r1 j1); cbn [zb Z.eqb andb]; [|reflexivity].
+      destruct (accept l1 r1 j1) eqn:A1; cbn [zb Z.eqb andb]; [|reflexivity].
+      destruct (accept l1 r2 j2) eqn:A2; cbn [zb Z.eqb andb]; [|reflexivity].
+      destruct (bytes_eqb (Hf (enc l1 r1)) (Hf (enc l1 r2))) eqn:B; cbn [zb Z.eqb andb]; [|reflexivity].
+      apply bytes_eqb_eq in B. apply Hf_inj in B.
+      cbn [andb]. apply row_eqb_eq.
+      eapply same_shape_inj; try eassumption; eapply accept_wf; eassumption.
+    - cbn [run_C06_gen spec_C06 known_C06_gen] in *.
+      destruct (layout_of k) as [l|]; [|discriminate Ok].
+      destruct (bytes_eqb (challenge_of Hf l r ch) (Hf (enc l r))); [discriminate K|].
+      rewrite andb_false_r. reflexivity.
+    - reflexivity.
+  Qed.
+End Signatures.
+
+(* ------------------------------------------------------------------ the current layouts *)
+Definition key0 : list byte := x01 :: repeat x61 32.
+
+Lemma layouts_not_ud : uniquely_decodable layouts = false.
+Proof. vm_compute. reflexivity. Qed.
+
+Lemma current_refuted : exists k1 r1 k2 r2 l1 l2,
+  collide key0 layouts = Some (k1, r1, k2, r2) /\
+  nth_error layouts (N.to_nat k1) = Some l1 /\ nth_error layouts (N.to_nat k2) = Some l2 /\
+  acceptable l1 r1 = true /\ acceptable l2 r2 = true /\ enc l1 r1 = enc l2 r2 /\ (k1, r1) <> (k2, r2).
+Proof.
+  destruct (collide key0 layouts) as [[[[k1 r1] k2] r2]|] eqn:C; [|vm_compute in C; discriminate C].
+  pose proof (collide_sound _ _ _ C) as S. apply is_collision_spec in S.
+  destruct S as [l1 [l2 S]]. exists k1, r1, k2, r2, l1, l2. split; [reflexivity | exact S].
+Qed.
+
+(* the scratch-confirmed pairs, as closed witnesses *)
+Definition uidA : list byte := repeat x41 16.
+Definition node_a : row := [VB uidA; VNone; VI 5; VI 7; VB (hx "61"); VB (hx "7b7d"); VNone; VB key0].
+Definition node_b : row := [VB uidA; VNone; VI 5; VI 7; VB (hx "61227b7d22"); VNone; VNone; VB key0].
+Definition edge_a : row := [VB uidA; VB (hx "6162"); VB (hx "63"); VB uidA; VI 9; VB key0].
+Definition edge_b : row := [VB uidA; VB (hx "61"); VB (hx "6263"); VB uidA; VI 9; VB key0].
+
+Lemma k1_node_witness : is_collision layouts (0%N, node_a, 0%N, node_b) = true.
+Proof. vm_compute. reflexivity. Qed.
+Lemma k1_edge_witness : is_collision layouts (1%N, edge_a, 1%N, edge_b) = true.
+Proof. vm_compute. reflexivity. Qed.
+Lemma k2_cross_kind_witness :
+  existsb (fun w : witness => let '(k1, _, k2, _) := w in negb (N.eqb k1 k2) && (k1 <? 4)%N && (k2 <? 4)%N)
+          (collide_all key0 layouts) = true.
+Proof. vm_compute. reflexivity. Qed.
+
+(* every field of a signed structure (the signature itself excepted) is part of the digest *)
+Definition all_fields_hashed : bool :=
+  list_eqb (fun st hs => forallb (fun f => existsb (String.eqb f) hs) st) layout_struct_fields layout_names.
+Lemma all_fields_hashed_ok : all_fields_hashed = true.
+Proof. vm_compute. reflexivity. Qed.
+
+Lemma raw_oracle_present : existsb (fun k => match k with SignsPeerBytes => true | _ => false end) sign_callers = true.
+Proof. vm_compute. reflexivity. Qed.
+
+(* a family the procedure accepts (tags + length prefixes + presence bytes): hypotheses of ud_sound are satisfiable *)
+Definition repaired : list layout :=
+  [ {| l_tag := hx "4e"; l_fields := [Fixed 16; Flagged (Fixed 16); I64le; I64le; LenPref (VarStr true); LenPref JsonQ; Key; Flagged VarBytes];
+       l_json_object := true; l_maxlen := None |};
+    {| l_tag := hx "45"; l_fields := [Fixed 16; LenPref (VarStr true); LenPref (VarStr true); Fixed 16; I64le; Key];
+       l_json_object := false; l_maxlen := Some 1024%N |};
+    {| l_tag := hx "44"; l_fields := [Fixed 16; Fixed 16; I64le; LenPref (VarStr false); I64le; Key];
+       l_json_object := false; l_maxlen := None |};
+    {| l_tag := hx "46"; l_fields := [Fixed 16; Fixed 16; LenPref (VarStr false); LenPref (VarStr false); Fixed 16; I64le; I64le; Key];
+       l_json_object := false; l_maxlen := None |};
+    {| l_tag := hx "49"; l_fields := [Fixed 16; VarStr false]; l_json_object := false; l_maxlen := None |};
+    {| l_tag := hx "41"; l_fields := [Fixed 16; Fixed 32]; l_json_object := false; l_maxlen := None |} ].
+Lemma repaired_ud : uniquely_decodable repaired = true /\ collide key0 repaired = None.
+Proof. vm_compute. split; reflexivity. Qed.
+
+Lemma run_spec_nonvacuous :
+  case_ok (CPair 0 node_a true 0 node_a true) = true /\ known_C06 (CPair 0 node_a true 0 node_a true) = [] /\
+  run_C06 (CPair 0 node_a true 0 node_a true) = [1; 1; 1]%Z /\
+  known_C06 (CPair 0 node_a true 0 node_b true) = [1]%Z /\
+  spec_C06 (CPair 0 node_a true 0 node_b true) (run_C06 (CPair 0 node_a true 0 node_b true)) = false.
+Proof. vm_compute. repeat split; reflexivity. Qed.
